@@ -264,6 +264,10 @@ func (x *gen) build(kind string) built {
 		return built{kind: kind, msg: &wire.MsgPong{Nonce: x.u64()}, countOff: -1}
 	case "reject":
 		cmd := []string{"block", "tx", "version", "", "blockx", "Tx", string(r.Bytes(r.Intn(20)))}[r.Intn(7)]
+		if r.Chance(1, 2) {
+			cl := commandList()
+			cmd = cl[r.Intn(len(cl))]
+		}
 		return built{kind: kind, msg: &wire.MsgReject{Cmd: cmd, Code: wire.RejectCode(r.Intn(256)), Reason: string(r.Bytes(x.blen(1000))), Hash: x.hash()}, countOff: 0}
 	case "feefilter":
 		return built{kind: kind, msg: &wire.MsgFeeFilter{MinFee: int64(x.u64())}, countOff: -1}
@@ -471,6 +475,14 @@ func (x *gen) malformed(b built, pver uint32, enc string, p []byte) {
 			}
 			q[i] ^= byte(1 << r.Intn(8))
 			x.dec("flip", kind, pver, enc, q, true)
+		}
+	}
+	// BIP144: any flag byte other than 01 after the 00 marker must be refused
+	if kind == "tx" && enc == "w" && len(p) > 6 && p[4] == 0 && p[5] == 1 {
+		for _, fl := range []byte{0, 2, 3, 0x81, 0xff} {
+			q := append([]byte{}, p...)
+			q[5] = fl
+			x.dec("bip144-flag", kind, pver, enc, q, true)
 		}
 	}
 	// count / length lies and non-minimal varints at the count offset
@@ -795,6 +807,14 @@ func (x *gen) boundary() {
 			emit(built{kind: "tx", msg: t2}, 70016)
 		}
 	}
+	// the costliest honest input per byte: ~4M empty witness items (24 bytes of slice header each)
+	if big {
+		t := &wire.MsgTx{Version: 2}
+		in := &wire.TxIn{Witness: make([][]byte, 3999900)}
+		in.Witness[0] = []byte{1}
+		t.TxIn = []*wire.TxIn{in}
+		emit(built{kind: "tx", msg: t}, 70016)
+	}
 	// script pool: total script bytes of one transaction at 4 MiB, one below, one above (thorough)
 	if big {
 		slab := int(wire.VerifConstsC08()["scriptSlabSize"])
@@ -851,7 +871,7 @@ func (P) Generate(g *core.Gen) {
 	x.hostile()
 	x.boundary()
 	// structured messages of every kind at every gate version, with their hostile variants
-	rounds := g.N(8, 100)
+	rounds := g.N(8, 45)
 	for round := 0; round < rounds; round++ {
 		for _, kind := range kinds {
 			b := x.build(kind)
@@ -875,7 +895,7 @@ func (P) Generate(g *core.Gen) {
 						continue
 					}
 					x.dec("valid:"+kind, kind, pver, e, p, len(p) > 0)
-					if round < g.N(5, 40) && pver == pvs[len(pvs)-1] {
+					if round < g.N(5, 20) && pver == pvs[len(pvs)-1] {
 						x.malformed(b, pver, e, p)
 					}
 					if len(p) <= 200000 {
